@@ -295,6 +295,15 @@ fn freshness_cases() -> Vec<Case> {
         "fn f0() {\nreturn 1\n}\nprint(f0([]..))\nprint(f0([1]..))\n",
         "o := {\"n\": 0, \"inc\": fn () {\nthis.n += 1\nreturn this.n\n}}\nprint(o.inc())\nprint(o.inc(5))\n",
         "g := fn () {\nreturn 1\n}\nprint(g())\nprint(g(null))\n",
+        // a spread argument contributes the items it has when it is evaluated
+        "fn f(..r) {\nprint(r)\n}\nxs := [1, 2]\nfn g() {\nxs[0] = 9\nreturn 5\n}\nf(xs.., g())\nprint(xs)\n",
+        "fn f(a, b, c) {\nprint([a, b, c])\n}\nxs := [1, 2]\nfn g() {\nxs[1] = 9\nreturn 5\n}\nf(xs.., g())\nf(g(), xs..)\n",
+        "ys := [1]\nfn h() {\nys[0] = 2\nreturn ys\n}\nprint([ys.., h().., ys..])\n",
+        // `this` of an inner call never replaces the `this` of the enclosing method
+        "a := {\"id\": \"A\", \"m\": fn () {\nb := {\"id\": \"B\", \"g\": fn () {\nreturn this.id\n}}\nprint(b.g())\nprint(this.id)\nreturn fn () {\nreturn this.id\n}\n}}\nk := a.m()\nprint(k())\nprint(a.id)\n",
+        "a := {\"id\": \"A\", \"mk\": fn () {\nreturn fn () {\nreturn this.id\n}\n}}\nb := {\"id\": \"B\"}\nb.g = a.mk()\nprint(b.g())\nc := {\"id\": \"C\", \"g\": b.g}\nprint(c.g())\nprint(b.g())\n",
+        "a := {\"id\": \"A\", \"m\": fn (o) {\nprint(o.f())\nprint(this.id)\nprint(o.f())\nprint(this.id)\n}}\nb := {\"id\": \"B\", \"f\": fn () {\nreturn this.id\n}}\na.m(b)\n",
+        "a := {\"id\": \"A\", \"m\": fn () {\ninner := fn () {\nreturn this.id\n}\nb := {\"id\": \"B\", \"g\": inner}\nprint(b.g())\nprint(inner())\nprint(this.id)\n}}\na.m()\n",
         // arguments are evaluated before the callee expression (the order named by the
         // property's anchor): an argument that rebinds what the callee expression denotes
         "fn old(x) {\nprint(\"old\")\n}\nfn new(x) {\nprint(\"new\")\n}\nhandler := old\nfn upgrade(x) {\nhandler = new\nreturn x\n}\nhandler(upgrade(\"a\"))\n",
